@@ -57,7 +57,7 @@ func capsFromMask(mask int) []string {
 	return out
 }
 
-var replyAltNames = []string{"ok", "4yz", "5yz", "drop", "garbage-or-multiline", "ok-then-write-fails", "421-then-disconnect", "ok-but-late"}
+var replyAltNames = []string{"ok", "4yz", "5yz", "drop", "garbage-or-multiline", "ok-then-write-fails", "421-then-disconnect", "ok-but-late", "ok-then-peer-stops-reading"}
 
 // stdScript answers every event through the chooser with the alphabet {default, 4yz, 5yz, drop}.
 func stdScript(c *vf.Chooser) func(s *refsmtp.Session, ev *refsmtp.Event, def refsmtp.Action) refsmtp.Action {
@@ -123,15 +123,23 @@ func stdScriptN(c *vf.Chooser, n int) func(s *refsmtp.Session, ev *refsmtp.Event
 }
 
 // stdScriptB: n=8 adds the late reply (outside TLS); n=6 adds "reply ok, then the client's next write fails" (breakWrites is called to arm the fault).
-func stdScriptB(c *vf.Chooser, n int, breakWrites func()) func(s *refsmtp.Session, ev *refsmtp.Event, def refsmtp.Action) refsmtp.Action {
+func stdScriptB(c *vf.Chooser, n int, breakWrites func(), stallWrites ...func()) func(s *refsmtp.Session, ev *refsmtp.Event, def refsmtp.Action) refsmtp.Action {
 	return func(s *refsmtp.Session, ev *refsmtp.Event, def refsmtp.Action) refsmtp.Action {
 		if def.Kind != refsmtp.ActReply {
 			return def
 		}
-		if n == 8 && (s.InTLS || ev.Verb == "STARTTLS") {
-			return replyAction(c.Choose(ev.Pos(), 7), ev, def, breakWrites) // no late replies inside / at the switch to TLS
+		if n >= 8 && (s.InTLS || ev.Verb == "STARTTLS") {
+			return replyAction(c.Choose(ev.Pos(), 7), ev, def, breakWrites) // no late replies / write stalls inside or at the switch to TLS
 		}
-		return replyAction(c.Choose(ev.Pos(), n), ev, def, breakWrites)
+		pick := c.Choose(ev.Pos(), n)
+		if pick == 8 {
+			// the reply is fine, but the peer stops reading: the client's next write runs into its deadline
+			if len(stallWrites) > 0 {
+				stallWrites[0]()
+			}
+			return def
+		}
+		return replyAction(pick, ev, def, breakWrites)
 	}
 }
 
